@@ -34,6 +34,10 @@ def run(ctx: CheckContext):
                 "TargetInput.model_validate(data).model_copy(deep=True)", "TargetInput.model_validate(data)", "E3")
     run_control(ctx, "C11/shallow-copy-of-request", analyse, p.root, "OpenPinch/main.py",
                 "TargetInput.model_validate(data).model_copy(deep=True)", "TargetInput.model_validate(data).model_copy()", "E3")
+    run_control(ctx, "C11/before-validator-writes-raw-input", analyse, p.root, "OpenPinch/lib/schema.py",
+                '    """Process stream definition supplied to the targeting service."""\n',
+                '    """Process stream definition supplied to the targeting service."""\n\n    @model_validator(mode="before")\n    @classmethod\n'
+                '    def _tidy(cls, data):\n        if isinstance(data, dict):\n            data["zone"] = str(data.get("zone")).strip()\n        return data\n', "E3")
     run_control(ctx, "C11/module-dict-written", analyse, p.root, "OpenPinch/main.py",
                 "    handler = _TARGET_HANDLERS.get(master_zone.identifier)\n", "    handler = _TARGET_HANDLERS.get(master_zone.identifier)\n    _TARGET_HANDLERS[\"last\"] = handler\n", "E2")
     run_control(ctx, "C11/class-list-appended", analyse, p.root, "OpenPinch/analysis/data_preparation.py",
